@@ -3,7 +3,7 @@
     Caco/NamesProofs.v, Caco/FileSetProofs.v or Caco/NamesGen.v.  All
     statements quantify over arbitrary byte strings. *)
 From Coq Require Import List NArith Bool String Permutation.
-From Verif Require Import Lib.Path Lib.Utf8 Caco.Names Caco.NamesProofs Caco.Match Caco.MatchProofs Caco.FileSet Caco.FileSetProofs Caco.FileSetIgnore
+From Verif Require Import Lib.Path Lib.Utf8 Caco.Names Caco.NamesProofs Caco.Match Caco.MatchProofs Caco.FileSet Caco.FileSetProofs Caco.FileSetIgnore Caco.FileSetWalk
   Caco.NamesGenDefs Caco.NamesGen Gen.CacoConsts.
 Import ListNotations.
 Local Open Scope N_scope.
@@ -211,6 +211,40 @@ Theorem C12_bsearch_dir_ignore_refuted :
   ignored (bs "pkg") (ig_rule [bs "gen.old/"; bs "gen/"]) (bs "pkg/generic/a.go") = false.
 Proof. exact bsearch_dir_ignore_refuted. Qed.
 Print Assumptions C12_bsearch_dir_ignore_refuted.
+
+(** The recursive listing, entry by entry (Caco/FileSetWalk.v): listed are
+    the entries that are no real directories, lie beneath the root, are reached
+    through real directories none of which is named like a skipped directory,
+    and whose own base name is none of the skipped file names. *)
+Theorem C12_recursive_listing_member : forall x sb tree R l f,
+  root_walked x sb tree R -> list_all x sb tree R = Some l ->
+  (In f l <-> exists e, In e tree /\ t_path e = f /\ listed x tree R e = true).
+Proof. exact list_all_member. Qed.
+Print Assumptions C12_recursive_listing_member.
+
+(** A non-directory entry never prunes its siblings: a regular file or a
+    symbolic link of ANY name (".git" - the gitdir pointer file of worktrees
+    and submodules -, COPYING, tags, ...) under a path the tree did not have
+    changes the listing by at most its own name, wherever it sorts. *)
+Theorem C12_non_directory_never_prunes : forall x sb tree R e' l l' f,
+  is_real_dir (t_kind e') = false -> find_entry tree (t_path e') = None ->
+  root_walked x sb tree R ->
+  list_all x sb tree R = Some l -> list_all x sb (e' :: tree) R = Some l' ->
+  f <> t_path e' ->
+  (In f l' <-> In f l).
+Proof. exact non_directory_never_prunes. Qed.
+Print Assumptions C12_non_directory_never_prunes.
+
+(** A walk that prunes at any entry named ".git", directory or not, keeps
+    only what sorts before it. *)
+Theorem C12_git_file_prunes_siblings_refuted :
+  list_all w_excl (bs "src") w_tree [] =
+    Some [bs "-x"; bs ".git"; bs "a"; bs "d/a"; bs "d/.git"; bs "d/-x"; bs "COPYING/x"] /\
+  list_all_pruning w_excl (bs "src") w_tree [] = Some [bs "-x"; bs ".git"] /\
+  list_all w_excl (bs "src") w_tree (bs "d") = Some [bs "d/a"; bs "d/.git"; bs "d/-x"] /\
+  list_all_pruning w_excl (bs "src") w_tree (bs "d") = Some [bs "d/.git"; bs "d/-x"].
+Proof. exact git_file_prunes_siblings_refuted. Qed.
+Print Assumptions C12_git_file_prunes_siblings_refuted.
 
 (** ** Patterns: Go's path.Match in full *)
 
